@@ -11,11 +11,11 @@ def check_C12(tier, seed):
                  "the API oracle (c12_api) derives select items, names, table and LIMIT from the sqlparser AST of the text, independently of parse_query"],
         assumptions=["query texts are valid UTF-8 (run_query takes &str)"],
         rule="c12_parse: pinned witnesses of the refutation lemmas + generated strings in 7 classes (probe: rich supported grammar; shape: plain statements; "
-             "limits: every LIMIT/OFFSET literal form; quoting: quote styles, doubled quotes, multi-byte neighbours; unsupported: 120 constructs sqlparser "
+             "limits: every LIMIT/OFFSET literal form; quoting: quote styles, doubled quotes, multi-byte neighbours (both at full weight since the fixes); unsupported: 120 constructs sqlparser "
              "accepts or rejects; mutation: 1-3 character/token edits of any of those; tokens: token soup), class label extended by AST features "
              "(+const +offset +topn +finalpass +grouping +aggconst); model = extracted parse_query / normalize on the reduced AST, compared with the real "
              "Query / normal form field by field. c12_api: the same generators (shape-heavy) against a 4-table, 3-partition fixture database through "
-             "LocustDB::run_query under catch_unwind and a 4 s deadline; non-trivial = sqlparser accepted the text; distinct by input hash")
+             "LocustDB::run_query under catch_unwind and a deadline; non-trivial = sqlparser accepted the text; distinct by input hash")
 
 
 def check_C11(tier, seed):
@@ -38,9 +38,10 @@ def check_C11(tier, seed):
                  "deadline, a process-wide panic hook as the only view of pool-thread / flush-job panics, and the table `panic site -> locks held` of canary.rs::held_of",
                  "thread scheduling, std::sync poisoning semantics and the one-shot / mpsc channels are not modelled: the model states their effect on the bookkeeping"],
         assumptions=["fairness: a live worker / the flush thread keeps iterating (C11_progress, C11_flush_handshake are statements about iterations)"],
-        rule="every known-finding request once (1 worker in memory or 2 workers on disk), plus random scenarios: 1-3 workers, memory/disk, 2-6 rounds of 1-3 "
-             "concurrent requests drawn from 14 valid, 27 failing (bad SQL, type errors, overflow, division by zero, unsupported features) and - in 1 scenario of 5, at most "
-             "one per scenario - 17 damaging requests; after every round a canary ingestion, force_flush, query and table_stats; the extracted model is fed the observed "
+        rule="every open-finding request once (1 worker in memory or 2 workers on disk), plus random scenarios: 1-3 workers, memory/disk, 2-6 rounds of 1-3 "
+             "concurrent requests drawn from 28 valid (incl. the repaired ones: OFFSET beyond the rows / without LIMIT, LIMIT 0, i64::MIN % -1, empty batches, short string "
+             "columns, mixed columns), 32 failing (bad SQL, LIMIT 1.5, empty text, type errors, overflow, division by zero, unsupported features) and - in 1 scenario of 5, at "
+             "most one per scenario - 5 requests of the open findings F27, F32, F23, F2; after every round a canary ingestion, force_flush, query and table_stats; the extracted model is fed the observed "
              "request outcomes and must reproduce every canary observation; non-trivial = every scenario; distinct by scenario hash")
 
 
@@ -48,31 +49,33 @@ CHECKS = {"C12": check_C12, "C11": check_C11}
 CLAIMED = {
     "C12": dict(
         text="Machine-checked proof (Coq) over an executable model of the conversion from the SQL parser's AST to LocustDB's query (parse_query and all its "
-             "helpers, Query::normalize / extract_aggregators, the output slice), stated for EVERY reduced AST: (1) plain totality is refuted by vm_compute witnesses "
-             "(LIMIT 1.5, LIMIT 10^23-1, OFFSET 1.5, an identifier whose value is a lone quote, a select text / table name that starts with a quote and ends in a "
-             "multi-byte character, an empty statement list), and outside the decidable class KnownPanicClass the conversion returns a query or an error value, "
-             "never a panic; (2) it returns a query exactly for the supported grammar (`supported`, a syntactic predicate), so every unsupported construct - joins, "
-             "GROUP BY, HAVING, DISTINCT, several FROM items, set operations, non-SELECT statements, unsupported operators / functions / AST nodes / values, named and "
-             "wildcard arguments, wrong arity, LIKE ... ESCAPE - yields NotImplemented / ParseError (Fatal for an unknown unary operator); (3) on success there is "
-             "exactly one output name per select item, in order, equal to `*`, or the alias / written text minus its surrounding quote bytes; (4) normalize never "
-             "panics, maps every select position to an existing projection / aggregate slot carrying the item's name and uses each slot exactly once in order "
-             "(or, with a final pass, position i = final column i with LIMIT/OFFSET moved there); (5) the output slice has at most LIMIT rows and stays inside the "
-             "result unless OFFSET exceeds it (refuted: finding F5). The model is tied to the code by a differential run on generated and mutated query strings "
-             "(the full converted Query and the normal form are compared field by field) and the property itself is checked on LocustDB::run_query against a "
-             "fixture database by an oracle that derives its expectations from the sqlparser AST.",
+             "helpers as repaired by ec6c954 / 88d707c / 7f4db9b, Query::normalize / extract_aggregators, the output slice as repaired by 0df51a0), stated for EVERY "
+             "reduced AST that satisfies the parser invariants (texts are valid UTF-8, number tokens parse as f64): (1) C12_total - the conversion returns a query or "
+             "an error value, never a panic; the former panic witnesses (LIMIT 1.5, LIMIT 10^23-1, OFFSET 1.5, empty statement list, lone-quote identifier, quoted text "
+             "ending in a multi-byte character) are theorems returning ParseError / the expected names, and the invariants are shown to be necessary; (2) it returns a "
+             "query exactly for the supported grammar (`supported`, a syntactic predicate), so every unsupported construct - joins, GROUP BY, HAVING, DISTINCT, several "
+             "FROM items, set operations, non-SELECT statements, unsupported operators / functions / AST nodes / values, named and wildcard arguments, wrong arity, "
+             "LIKE ... ESCAPE, LIMIT/OFFSET literals that are not u64 - yields NotImplemented / ParseError (Fatal for an unknown unary operator); (3) on success there is "
+             "exactly one output name per select item, in order, equal to `*`, or the alias / written text, unquoted when it is enclosed in a matching pair of quote "
+             "characters; (4) normalize never panics, maps every select position to an existing projection / aggregate slot carrying the item's name and uses each slot "
+             "exactly once in order (or, with a final pass, position i = final column i with LIMIT/OFFSET moved there); (5) for every limit / offset / length the output "
+             "slice has at most LIMIT rows and stays inside the result, and limit + offset saturates. The model is tied to the code by a differential run on generated "
+             "and mutated query strings (the full converted Query and the normal form are compared field by field, the parser invariants are checked on every case) and "
+             "the property itself is checked on LocustDB::run_query against a fixture database by an oracle that derives its expectations (names, star expansion, unknown "
+             "table / column, LIMIT, and the exact row count of plain SELECTs under LIMIT/OFFSET) from the sqlparser AST.",
         note="Trusted: Coq kernel, extraction, sqlparser (the harness re-parses the text and reduces the AST; its panics would surface as caller panics), Rust's f64 "
-             "parser and Unicode upper-casing as oracle leaves. Select-star expansion, unknown table => error, unknown column => NULL, equal column lengths and "
-             "row/column agreement are covered by the API oracle only (the executor is not modelled). Engine-internal pool-thread panics reached through the rich "
+             "parser and Unicode upper-casing as oracle leaves. Select-star expansion, unknown table => error, unknown column => NULL, equal column lengths, row/column "
+             "agreement and row counts are covered by the API oracle only (the executor is not modelled). Engine-internal pool-thread panics reached through the rich "
              "expression grammar are attributed to one family finding (F32) for the generator classes probe/mutation/tokens/quoting/limits; in the `shape`, "
-             "`unsupported`, `pinned` and `fresh-db` classes every violation must match a site-specific known finding.",
-        technique="Coq proof (totality outside a decidable class, acceptance = supported grammar, naming, slot bijection) over an executable model + AST-level differential + API oracle",
+             "`unsupported`, `pinned` and `fresh-db` classes every violation must match a site-specific known finding (open: F23, F27, F29b, F30, F31, F33, F34).",
+        technique="Coq proof (totality on parser outputs, acceptance = supported grammar, naming, slot bijection, slice bounds) over an executable model + AST-level differential + API oracle",
         design_ref="5/C12"),
     "C11": dict(
         text="Machine-checked proof (Coq) over a model of the scheduler bookkeeping: (1) the damage state machine - requests that return values (results or error "
              "values of any kind), in any number of rounds of concurrent requests, leave the live-worker count, the lock health and the flush thread exactly as they "
              "were and all four canaries succeed after every round; damage is monotone (a lost worker is never replaced, a poisoned lock never heals, a dead flush "
-             "thread stays dead); the unguarded statement is refuted: a pool-thread panic loses a worker and with the last one gone every later query hangs (concrete "
-             "witness), a caller-side panic below ingest_efficient poisons the ingestion lock; the canaries detect every modelled damage except a partially depleted pool; "
+             "thread stays dead); the unguarded statement is refuted by what is still reachable on the repaired tree: a pool-thread panic (F27, F32, F23, F35) loses a "
+             "worker and with the last one gone every later query hangs (concrete witness), a panicking flush job (F2) blocks every later force_flush; the canaries detect every modelled damage except a partially depleted pool; "
              "(2) the task queue (schedule / await_task / worker_loop, sequentialised): while a live worker keeps iterating and no task panics the queue drains within "
              "`measure` iterations and every scheduled task has answered; a panicking task consumes its entry and answers nobody; (3) the force_flush hand-shake: every "
              "caller registered before an iteration of the flush thread is answered after that iteration's flush, a late caller by the next one, the rest at shutdown, "
